@@ -436,24 +436,24 @@ namespace Dune {
 
     //! Binary vector addition
     template <class Other>
-    derived_type operator+ (const DenseVector<Other>& b) const
+    AutonomousValue<derived_type> operator+ (const DenseVector<Other>& b) const
     {
-      derived_type z = asImp();
+      AutonomousValue<derived_type> z = asImp();
       return (z+=b);
     }
 
     //! Binary vector subtraction
     template <class Other>
-    derived_type operator- (const DenseVector<Other>& b) const
+    AutonomousValue<derived_type> operator- (const DenseVector<Other>& b) const
     {
-      derived_type z = asImp();
+      AutonomousValue<derived_type> z = asImp();
       return (z-=b);
     }
 
     //! Vector negation
-    derived_type operator- () const
+    AutonomousValue<derived_type> operator- () const
     {
-      V result = asImp();
+      AutonomousValue<V> result = asImp();
       using idx_type = typename decltype(result)::size_type;
 
       for (idx_type i = 0; i < size(); ++i)
